@@ -213,6 +213,8 @@ def run_case(ctx, mod, objs, case):
             trials = []
             for _ in range(case.get("n", 3)):
                 kinds = [k for k in X.KINDS if rr.random() < 0.45 and k not in ("ws_between_children", "value_ws")]
+                if rr.random() < 0.3 or ("xsi:type" in xml and not trials):
+                    kinds = sorted(set(kinds) | {"default_ns", "qname_attrs"})
                 eo = None
                 pad = False
                 if mode == "element_only":
